@@ -20,7 +20,7 @@
 (***************************************************************************)
 EXTENDS Framer
 
-CONSTANTS EnvMode, A, MaxPay, Budget, MaxItems, DefinedMids, Damage, OptSet
+CONSTANTS EnvMode, A, MaxPay, Budget, MaxItems, DefinedMids, Damage, OptSet, HRaise
 
 VARIABLES budget,    \* bytes (bytes mode) / items (items mode) the source may still produce
           eof,       \* the client has seen end of data
@@ -120,7 +120,8 @@ AnswerItems ==
                   ELSE expect
   /\ UNCHANGED <<budget, want>>
 
-Next == Call \/ AnswerBytes \/ Produce \/ AnswerItems
+HandlerThrows == HRaise /\ HandlerRaises /\ UNCHANGED evars
+Next == Call \/ AnswerBytes \/ Produce \/ AnswerItems \/ HandlerThrows
 Spec == Init /\ [][Next]_vars /\ WF_vars(Next)
 
 \* ---------------------------------------------------------------- properties
@@ -135,5 +136,5 @@ DebtSettled == expect # "VIOLATED"
 NoLoss == (EnvMode = "items" /\ pc = "b1" /\ avail = << >>) => expect = "none"
 NoStarve == (EnvMode = "items" /\ eof) => (avail = << >> /\ budget = 0)
 \* C05: after a raise the very next call starts at the next item
-RaiseThenResume == (obs.ev = "raise") => (pc = "idle" /\ cur = << >>)
+RaiseThenResume == (obs.ev \in {"raise", "hraise"}) => (pc = "idle" /\ cur = << >>)
 =============================================================================
